@@ -10,6 +10,8 @@ def norm_arith(e):
         i = strip(e[1])
         if isinstance(i, tuple) and i[0] == "binop" and i[1].endswith("WithOverflow"):
             return ("binop", i[1][:-len("WithOverflow")], norm_arith(i[2]), norm_arith(i[3]))
+    if isinstance(e, tuple) and e[0] in ("field", "downcast"):
+        return (e[0], norm_arith(e[1])) + e[2:]
     if isinstance(e, tuple) and e[0] == "binop":
         return ("binop", e[1], norm_arith(e[2]), norm_arith(e[3]))
     if isinstance(e, tuple) and e[0] == "cast" and e[1].startswith("IntToInt"):
